@@ -9,5 +9,5 @@ cp -r /repo/qlasskit "$D/qlasskit"
 cd /verif
 rc=0
 for id in "$@"; do
-  QV_REPO="$D" ./check "$id" --no-evidence 2>&1 | grep -v "conda" | grep -E "VIOLATION|ANALYSIS-ERROR|^\[|rule " | cut -c1-260
+  QV_REPO="$D" ./check "$id" --no-evidence 2>&1 | grep -E "VIOLATION|ANALYSIS-ERROR|^\[|rule " | cut -c1-260
 done
